@@ -33,20 +33,48 @@
 //   wall      after wake_all returns every waiter queued when it began is unlinked and taken
 //   leak      deposit-box slots in use (both boxes) at the end == at the start of the case
 //   stranded  every coroutine finished after the closer's wake_all rounds
+//   cbafter   await_suspend never fetches the on_suspend callback from an awaitable that the continuation has already
+//             destroyed (it must not touch the awaitable once add_awaiter published the node); only the variant
+//             driver built with -DC13_UNLOCK_POINT (lock_guard of futex.cpp yields after unlocking, freed memory is
+//             poisoned) can open and see that window
 #include "shim/prelude.h"
 #include "babylon/coroutine/cancelable.h"
 #include "babylon/coroutine/futex.h"
 #include "babylon/executor.h"
 
 static inline void c13_after_finish() { verif::point(verif::K_USER, 0, nullptr, "after_finish_released", 0); }
+#ifdef C13_UNLOCK_POINT
+// variant driver (built with ASan): the lock_guard of futex.cpp additionally yields right after it released the mutex,
+// which opens the window between add_awaiter() publishing the node and the rest of await_suspend
+namespace std {
+template <typename M>
+struct c13_lock_guard {
+  explicit c13_lock_guard(M& m) : _m(m) { _m.lock(); }
+  ~c13_lock_guard() { _m.unlock(); verif::point(verif::K_USER, 0, nullptr, "after_unlock", 0); }
+  M& _m;
+};
+}
+#define lock_guard c13_lock_guard
+#endif
 #define finish_released(x) finish_released(x), c13_after_finish()
 #include "babylon/coroutine/futex.cpp"
 #undef finish_released
+#ifdef C13_UNLOCK_POINT
+#undef lock_guard
+#endif
 
 #include <cstdio>
 #include <cstring>
 #include <deque>
 #include <sstream>
+#include <malloc.h>
+
+#ifdef C13_UNLOCK_POINT
+// variant driver: freed memory is filled with 0xEE (see OnSuspend)
+void operator delete(void* p) noexcept { if (p) { memset(p, 0xEE, malloc_usable_size(p)); free(p); } }
+void operator delete(void* p, size_t) noexcept { if (p) { memset(p, 0xEE, malloc_usable_size(p)); free(p); } }
+#endif
+
 
 using namespace babylon;
 using babylon::coroutine::BasicCancellable;
@@ -57,6 +85,7 @@ using babylon::coroutine::Task;
 namespace {
 
 struct World;
+std::string g_case_id;
 thread_local uint64_t g_fn = 0;        // id of the executor function this thread is running (0 = none)
 
 struct PoolExec : public Executor {
@@ -84,7 +113,7 @@ struct World {
   std::vector<::babylon::Promise<int>*> promises; std::vector<Future<int>> futures;
   int queued = 0, busy = 0; size_t clients_done = 0; bool stop = false; uint64_t fn_seq = 0;
   // monitors
-  bool once = true, exec_ok = true, value_ok = true, nosusp = true, w1 = true, wall = true;
+  bool once = true, exec_ok = true, value_ok = true, nosusp = true, w1 = true, wall = true, cbafter = true;
   long wakes = 0, fcancels = 0, closer_wakes = 0; int tokens_published = 0;
   std::string detail;
   ptrdiff_t slot_delta = 0;
@@ -119,6 +148,23 @@ int PoolExec::invoke(MoveOnlyFunction<void(void)>&& function) noexcept {
   return 0;
 }
 
+// on_suspend callback of a futex wait.  In the variant driver freed memory is filled with 0xEE, so a callback object
+// that await_suspend fetches from an awaitable the continuation has already destroyed fails the magic test: reported
+// at once (cbafter=0) and the process leaves before anything else is touched (the driver is restarted on the rest).
+constexpr uint64_t C13_MAGIC = 0xC13C13C13C13ULL;
+struct OnSuspend {
+  uint64_t magic; World* w; int i; size_t j;
+  void operator()(CoFutex::Cancellation t) const {
+    if (magic != (C13_MAGIC ^ (uint64_t)(i * 131 + (int)j))) {
+      printf("%s ok steps=0 pre=0 | - / - | once=1 acct=1 exec=1 value=1 nosusp=1 w1=1 wall=1 leak=1 stranded=1 cbafter=0 slots=0 "
+             "detail=on_suspend-callback-read-from-destroyed-awaitable\n", g_case_id.c_str());
+      fflush(stdout);
+      _exit(0);
+    }
+    COp& o = w->coros[(size_t)i].ops[j]; o.ftok = t; o.token_set = true; ++w->tokens_published;
+  }
+};
+
 Task<int> child(World* w, int fut, int ret) {
   if (fut >= 0) {
     int v = co_await Future<int>(w->futures[(size_t)fut]);
@@ -138,8 +184,7 @@ Task<> body(World* w, int i) {
     switch (op.k) {
       case 'w':
         if (op.tok) {
-          co_await w->futex.wait((uint64_t)op.x).on_suspend([w, i, j](CoFutex::Cancellation t) {
-            COp& o = w->coros[(size_t)i].ops[j]; o.ftok = t; o.token_set = true; ++w->tokens_published; });
+          co_await w->futex.wait((uint64_t)op.x).on_suspend(OnSuspend{C13_MAGIC ^ (uint64_t)(i * 131 + (int)j), w, i, j});
         } else {
           co_await w->futex.wait((uint64_t)op.x);
         }
@@ -220,11 +265,16 @@ int main(int argc, char** argv) {
     delta = reinterpret_cast<char*>(&*s->object) - reinterpret_cast<char*>(s);
     delete s;
   }
-  while (fgets(line, sizeof line, stdin)) {
+  // warm-up case (not reported): first-use paths of the deposit boxes / allocators / vectors take a different number
+  // of atomic operations; running one fixed program first makes a case replayed alone see the same schedule as in a batch
+  bool warm = true;
+  while (warm || fgets(line, sizeof line, stdin)) {
+    if (warm) strcpy(line, "warmup 1 3 2 1 0:w1t,w1;0:w1t;1:w1t;1:w1;0:w1t;1:w1,w1t;0:c1.0;1:f1 Q2,K0.0,W1,S0|WA,S1,WA\n");
+    bool warming = warm; warm = false;
     auto f = split(line, ' ');
     for (auto& x : f) while (!x.empty() && (x.back() == '\n' || x.back() == '\r')) x.pop_back();
     if (f.size() < 7) continue;
-    std::string id = f[0];
+    std::string id = f[0]; g_case_id = id;
     unsigned long long seed = strtoull(f[1].c_str(), nullptr, 10);
     int strategy = atoi(f[2].c_str()); int nworkers = atoi(f[3].c_str()); int value0 = atoi(f[4].c_str());
     World* w = new World(); w->slot_delta = delta;
@@ -367,9 +417,9 @@ int main(int argc, char** argv) {
     }
     if (out.empty()) out = "-";
     for (auto& ch : w->detail) if (ch == ' ' || ch == '|') ch = '_';
-    printf("%s ok steps=%llu pre=%llu | %s / %s | once=%d acct=%d exec=%d value=%d nosusp=%d w1=%d wall=%d leak=%d stranded=%d slots=%u detail=%s\n",
+    if (!warming) printf("%s ok steps=%llu pre=%llu | %s / %s | once=%d acct=%d exec=%d value=%d nosusp=%d w1=%d wall=%d leak=%d stranded=%d cbafter=%d slots=%u detail=%s\n",
            id.c_str(), (unsigned long long)r.steps, (unsigned long long)r.preemptions, out.c_str(), progress.empty() ? "-" : progress.c_str(),
-           w->once, acct, w->exec_ok, w->value_ok, w->nosusp, w->w1, w->wall, leak_ok, stranded_ok, slots_end,
+           w->once, acct, w->exec_ok, w->value_ok, w->nosusp, w->w1, w->wall, leak_ok, stranded_ok, w->cbafter, slots_end,
            w->detail.empty() ? "-" : w->detail.c_str());
     fflush(stdout);
     // the world is leaked on purpose when something is stranded (frames still reference it)
